@@ -101,7 +101,7 @@ import (
 )
 
 var st = stat.New("C13",
-	"machine: (selector kind in rr/random/modhash/conhash, weighted?, universe of 1..12 distinct hosts + optional same-host/other-port duplicates, weight profile over {negative,0,1,small,100,1000,1e6,mixed}, weight types all-static/mixed/loop, sequence of 1..24 Refresh/Add/Remove/Select ops) drawn by rapid and executed against a host-set model; weightlist: all-static weight vectors of 1..12 endpoints; concurrent (race build): 2..8 selecting vs 1..2 updating goroutines with private interval logs. Non-trivial = history with >=1 successful Remove followed by a Select and, for weighted selectors, >=3 distinct positive weights in the universe (weightlist: >=3 distinct positive weights). Distinct = distinct case JSON.",
+	"machine: (selector kind in rr/random/modhash/conhash, weighted?, universe of 1..12 distinct hosts + optional same-host/other-port duplicates, weight profile over {negative,0,1,small,100,1000,1e6,mixed}, weight types all-static/mixed/loop, sequence of 1..24 Refresh/Add/Remove/Select ops) drawn by rapid and executed against a host-set model; weightlist: all-static weight vectors of 1..12 endpoints, including weights up to 2^31-1 whose product with the scaling range exceeds 32 bits; concurrent (race build): 2..8 selecting vs 1..2 updating goroutines with private interval logs. Non-trivial = history with >=1 successful Remove followed by a Select and, for weighted selectors, >=3 distinct positive weights in the universe (weightlist: >=3 distinct positive weights). Distinct = distinct case JSON.",
 	"endpoints are identified by Host (Endpoint.HashKey); Remove is called with the endpoint that was installed for that host (same weight), as tars/endpointmanager.go does; same-host duplicates carry the weight of the first endpoint of that host",
 	"weights are limited to |w| <= 1e6 (1e6 for consistent hash only on the first host of the universe): BuildStaticWeightList pre-allocates sum(weights) ints and weighted consistent hash creates w/4*4 ring points",
 	"rotation / weight-cycle windows are only taken between two update calls (successful or not)",
@@ -408,6 +408,8 @@ var pools = map[string][]int32{
 	"nonpos":   {0, -1, -3, -50},
 	"allneg":   {-1000, -50, -3, -1},
 	"mixed":    {-1000, -50, -1, 0, 0, 1, 2, 3, 10, 100, 1000000},
+	// weights whose product with the scaling range (10 or 100) does not fit 32 bits
+	"giant": {300000, 2000000, 21474836, 21474837, 30000000, 200000000, 214748365, 400000000, 1073741824, 2147483647},
 }
 
 func hostName(i int) string { return fmt.Sprintf("10.13.0.%d", i+1) }
@@ -784,7 +786,7 @@ type WCase struct {
 
 func drawWeightList(rt *rapid.T) WCase {
 	n := rapid.IntRange(1, 12).Draw(rt, "n")
-	profile := rapid.SampledFrom([]string{"distinct", "distinct", "spread", "spread", "spread", "equal", "huge", "withzero", "withneg", "nonpos", "allneg", "mixed", "wide"}).Draw(rt, "profile")
+	profile := rapid.SampledFrom([]string{"distinct", "distinct", "spread", "spread", "spread", "equal", "huge", "withzero", "withneg", "nonpos", "allneg", "mixed", "wide", "giant", "giant"}).Draw(rt, "profile")
 	c := WCase{}
 	var eq int32
 	if profile == "equal" {
